@@ -228,6 +228,32 @@ def run(ctx):
         okk = any(v.guard_keys(i, False) <= g for i in inval if i.state == idle)
         ob2.instance("write beat accepted", {"guards": sorted(g), "invalidates": [sorted(v.guard_keys(i, False)) for i in inval if i.state == idle]})
         if not okk:
+            # an invalidation restricted to writes that target the cached word: ack & cache-hit must imply it
+            hit_t = [expand_term(v, a_ if p_ else Op("~", (a_,))) for a_, p_ in extra]
+            ack_t = [expand_term(v, c_ if p_ else Op("~", (c_,))) for c_, p_ in l.guards if l.fsm is None or True]
+            res_ = None
+            for i in inval:
+                if i.state != idle:
+                    continue
+                inv_t = [expand_term(v, c_ if p_ else Op("~", (c_,))) for c_, p_ in i.guards]
+                r_, _cx = implies(ack_t + hit_t, inv_t)
+                if r_:
+                    res_ = True
+                    break
+            if res_:
+                ob2.instance("invalidation restricted to writes that hit the cached word", True)
+                continue
+            cached_ = [k_ for k_ in CA if k_ != WIDE]
+            def on_cache(i):
+                sp_ = set()
+                for c_, p_ in i.guards:
+                    sp_ |= support(expand_term(v, c_))
+                return bool(sp_ & set(cached_))
+            if any(on_cache(i) for i in inval if i.state == idle and "~" + WE not in v.guard_keys(i, False)):
+                ob2.unknown("a write beat is acknowledged under %s, the read cache is invalidated under %s (a condition on the cache itself): whether every write "
+                            "to the cached word is covered is not decided" % (sorted(g), [sorted(v.guard_keys(i, False)) for i in inval if i.state == idle]))
+                continue
+        if not okk:
             ob2.refute("write-keeps-cache", "a write beat is acknowledged under %s but the read cache is only invalidated under %s: a merged (not yet "
                        "flushed) write leaves the cached word valid and a following read of that word returns the old bytes" %
                        (sorted(g), [sorted(v.guard_keys(i, False)) for i in inval if i.state == idle]), l.loc)
